@@ -25,6 +25,61 @@ mod value;
 
 use std::io::{BufRead, Write};
 
+/// Counting allocator: peak of live heap bytes since the last reset (used by the decoder checks to
+/// relate allocation to input size).
+pub mod alloc_count {
+    use std::alloc::{GlobalAlloc, Layout, System};
+    use std::sync::atomic::{AtomicUsize, Ordering};
+    static CUR: AtomicUsize = AtomicUsize::new(0);
+    static PEAK: AtomicUsize = AtomicUsize::new(0);
+    pub struct Counting;
+    unsafe impl GlobalAlloc for Counting {
+        unsafe fn alloc(&self, l: Layout) -> *mut u8 {
+            let p = System.alloc(l);
+            if !p.is_null() {
+                let c = CUR.fetch_add(l.size(), Ordering::Relaxed) + l.size();
+                PEAK.fetch_max(c, Ordering::Relaxed);
+            }
+            p
+        }
+        unsafe fn dealloc(&self, p: *mut u8, l: Layout) {
+            CUR.fetch_sub(l.size(), Ordering::Relaxed);
+            System.dealloc(p, l)
+        }
+        unsafe fn alloc_zeroed(&self, l: Layout) -> *mut u8 {
+            let p = System.alloc_zeroed(l);
+            if !p.is_null() {
+                let c = CUR.fetch_add(l.size(), Ordering::Relaxed) + l.size();
+                PEAK.fetch_max(c, Ordering::Relaxed);
+            }
+            p
+        }
+        unsafe fn realloc(&self, p: *mut u8, l: Layout, new: usize) -> *mut u8 {
+            let q = System.realloc(p, l, new);
+            if !q.is_null() {
+                if new >= l.size() {
+                    let c = CUR.fetch_add(new - l.size(), Ordering::Relaxed) + (new - l.size());
+                    PEAK.fetch_max(c, Ordering::Relaxed);
+                } else {
+                    CUR.fetch_sub(l.size() - new, Ordering::Relaxed);
+                }
+            }
+            q
+        }
+    }
+    /// forget the peak: from now on `peak_since_reset` is relative to the bytes live now
+    pub fn reset() -> usize {
+        let c = CUR.load(Ordering::Relaxed);
+        PEAK.store(c, Ordering::Relaxed);
+        c
+    }
+    pub fn peak_since(base: usize) -> usize {
+        PEAK.load(Ordering::Relaxed).saturating_sub(base)
+    }
+}
+#[global_allocator]
+static GLOBAL: alloc_count::Counting = alloc_count::Counting;
+
 #[repr(C)]
 struct RLimit {
     cur: u64,
